@@ -588,7 +588,7 @@ def _t2():
 
 
 _spec2, _check2 = _t2()
-m2s('_serverGetClientHello/cipher-suites', ('C03',), SGC, _spec2, check=_check2, setup=sgc_setup,
+m2s('_serverGetClientHello/cipher-suites', ('C03', 'C20'), SGC, _spec2, check=_check2, setup=sgc_setup,
         doc='server: the candidate suites are CipherSuite.get*Suites(settings, version) results filtered to the '
             'negotiated version; the yielded suite is the one _server_select_certificate picked from them')
 
